@@ -88,7 +88,9 @@ pub fn write_pinned_sized(dir: &Path, seed: u64, big: bool, huge: usize) -> anyh
     let nclients = 1 + rng.usize(3);
     let mut exp = Expected { clients: vec![], note: format!("written in-process by the vendored pinned crates, seed {seed}") };
     for c in 0..nclients {
-        let id = rng.uuid();
+        // the pinned release accepts any well-formed id (v1, v7, hand-made): every other client has an
+        // arbitrary 128-bit id
+        let id = if c % 2 == 1 { rng.uuid_any() } else { rng.uuid() };
         let mut ec = ExpClient { id, ..Default::default() };
         {
             let mut t = server.txn(id)?;
@@ -490,8 +492,11 @@ pub fn executable_part(seed: u64, thorough: bool, cov: &mut Cov, errors: &mut Ve
         errors.push("the server executable is not built".into());
         return None;
     };
-    let forms: [(&str, &str); 4] = [("absolute", ""), ("relative", "state/db"), ("relative-tilde", "~/tss"), ("relative-dotted", "./a/../a/data")];
+    use std::os::unix::ffi::OsStrExt;
+    // (the last one is a Latin-1 name on disk: not valid UTF-8, legal on this platform)
+    let forms: [(&str, &[u8]); 5] = [("absolute", b""), ("relative", b"state/db"), ("relative-tilde", b"~/tss"), ("relative-dotted", b"./a/../a/data"), ("relative-not-utf8", b"donn\xe9es/db")];
     for (fi, (form, rel)) in forms.iter().enumerate() {
+        let rel: &std::ffi::OsStr = std::ffi::OsStr::from_bytes(rel);
         for rep in 0..(if thorough { 6 } else { 1 }) {
             let outer = ScratchDir::new("c19bin");
             let data = if rel.is_empty() { outer.path().join("data") } else { outer.path().join(rel) };
@@ -502,7 +507,7 @@ pub fn executable_part(seed: u64, thorough: bool, cov: &mut Cov, errors: &mut Ve
             let Ok(exp) = write_pinned(&data, wseed, rep % 2 == 1) else { continue };
             let Some(port) = crate::net::free_port() else { continue };
             let addr = format!("127.0.0.1:{port}");
-            let given: std::ffi::OsString = if rel.is_empty() { data.as_os_str().to_os_string() } else { (*rel).into() };
+            let given: std::ffi::OsString = if rel.is_empty() { data.as_os_str().to_os_string() } else { rel.to_os_string() };
             let args: Vec<std::ffi::OsString> = vec!["--listen".into(), addr.clone().into(), "--data-dir".into(), given];
             let mut proc = match crate::net::Proc::start_in(&bin, &args, &[], &[addr.clone()], Duration::from_secs(20), Some(outer.path())) {
                 Ok(p) => p,
